@@ -111,25 +111,86 @@ func runC18(c *an.Ctx) {
 	}
 	// (3) irregular
 	if nv := mustFunc(c, "common.(*ZeroCopySource).NextVarUint"); nv != nil {
-		gsz := mustFunc(c, "common.getVarUintSize")
+		// the irregular result is "encoded size != minimal size": a != comparison both of whose operands range over
+		// the four var-uint sizes {1,3,5,9} - one chosen by the tag that was read, the other computed from the value
+		// (by a private size function or by the same thresholds written in place)
+		sizes := map[string]bool{"1": true, "3": true, "5": true, "9": true}
+		var isSize func(v ssa.Value, depth int) bool
+		isSize = func(v ssa.Value, depth int) bool {
+			if depth > 6 {
+				return false
+			}
+			switch x := an.Origin(v).(type) {
+			case *ssa.Const:
+				return x.Value != nil && sizes[x.Value.String()]
+			case *ssa.Phi:
+				for _, e := range x.Edges {
+					if e != ssa.Value(x) && !isSize(e, depth+1) {
+						// the zero a declared-but-unset variable holds on the paths that return early
+						if k, isK := e.(*ssa.Const); isK && k.Value != nil && k.Value.String() == "0" {
+							continue
+						}
+						return false
+					}
+				}
+				return len(x.Edges) > 0
+			case *ssa.Convert:
+				return isSize(x.X, depth+1)
+			case *ssa.Extract:
+				// one result of a private helper that reads the payload: a size on its decoding returns, 0 on eof
+				call, isCall := x.Tuple.(*ssa.Call)
+				if !isCall || call.Call.StaticCallee() == nil || call.Call.StaticCallee().Blocks == nil || call.Call.StaticCallee().Pkg != nv.Pkg {
+					return false
+				}
+				rets := an.Returns(call.Call.StaticCallee())
+				for _, r := range rets {
+					if x.Index >= len(r.Results) {
+						return false
+					}
+					if k, isK := r.Results[x.Index].(*ssa.Const); isK && k.Value != nil && k.Value.String() == "0" {
+						continue
+					}
+					if !isSize(r.Results[x.Index], depth+1) {
+						return false
+					}
+				}
+				return len(rets) > 0
+			case *ssa.Call:
+				callee := x.Call.StaticCallee()
+				if callee == nil || callee.Blocks == nil || callee.Pkg != nv.Pkg {
+					return false
+				}
+				rets := an.Returns(callee)
+				for _, r := range rets {
+					if len(r.Results) != 1 || !isSize(r.Results[0], depth+1) {
+						return false
+					}
+				}
+				return len(rets) > 0
+			}
+			return false
+		}
 		ok := false
 		for _, b := range nv.Blocks {
 			for _, in := range b.Instrs {
-				if bo, isB := in.(*ssa.BinOp); isB && bo.Op == token.NEQ {
-					if k, isC := bo.Y.(*ssa.Call); isC && k.Call.StaticCallee() == gsz {
-						// flows to the irregular result
-						for _, r := range an.Returns(nv) {
-							for _, s := range an.AllSources(r.Results[2]) {
-								if s == ssa.Value(bo) {
-									ok = true
-								}
-							}
+				bo, isB := in.(*ssa.BinOp)
+				if !isB || (bo.Op != token.NEQ && bo.Op != token.EQL) || !isSize(bo.X, 0) || !isSize(bo.Y, 0) {
+					continue
+				}
+				// flows to the irregular result (directly for !=, negated for ==)
+				for _, r := range an.Returns(nv) {
+					for _, s := range an.AllSources(r.Results[2]) {
+						if s == ssa.Value(bo) && bo.Op == token.NEQ {
+							ok = true
+						}
+						if u, isU := s.(*ssa.UnOp); isU && u.Op == token.NOT && u.X == ssa.Value(bo) && bo.Op == token.EQL {
+							ok = true
 						}
 					}
 				}
 			}
 		}
-		c.Check(ok, "canonical|NextVarUint|irregular", "a var-uint is reported irregular exactly when its encoded size differs from the minimal size of its value", c.P.Rel(nv.Pos()), "the irregular result is not size != getVarUintSize(data)")
+		c.Check(ok, "canonical|NextVarUint|irregular", "a var-uint is reported irregular exactly when its encoded size differs from the minimal size of its value", c.P.Rel(nv.Pos()), "the irregular result is not <encoded size> != <minimal size of the value>")
 	}
 	// (4) widths
 	for _, w := range []struct {
@@ -163,41 +224,75 @@ func runC18(c *an.Ctx) {
 		}
 		c.Check(okW && okR && okN, "codec|uint"+w.n, "writer and reader of the fixed-width integer agree on width and byte order", c.P.Rel(rd.Pos()), fmt.Sprintf("writer little-endian PutUint%s: %v; reader little-endian Uint%s: %v; reads %d bytes: %v", w.n, okW, w.n, okR, w.bytes, okN))
 	}
-	// var-uint tables
-	consts := func(name string) string {
+	// var-uint tables: size thresholds (normalised to "<= k") and dispatch tags (== k), over the function and the
+	// private helpers it calls
+	consts := func(name string) (thresholds, tags string) {
 		fn := mustFunc(c, name)
 		if fn == nil {
-			return "?"
+			return "?", "?"
 		}
-		set := map[string]bool{}
-		var blocks []*ssa.BasicBlock
+		th, tg := map[string]bool{}, map[string]bool{}
 		for _, g := range an.InlineReach(fn) {
-			blocks = append(blocks, g.Blocks...)
-		}
-		for _, b := range blocks {
-			for _, in := range b.Instrs {
-				switch x := in.(type) {
-				case *ssa.BinOp:
-					switch x.Op {
-					case token.LSS, token.LEQ, token.EQL, token.GTR, token.GEQ:
-						if k, ok := x.Y.(*ssa.Const); ok && k.Value != nil && k.Value.Kind() == constant.Int {
-							set[x.Op.String()+k.Value.String()] = true
+			for _, b := range g.Blocks {
+				for _, in := range b.Instrs {
+					x, isB := in.(*ssa.BinOp)
+					if !isB {
+						continue
+					}
+					op, kv := x.Op, ssa.Value(nil)
+					if k, ok := x.Y.(*ssa.Const); ok {
+						kv = k
+					} else if k, ok := x.X.(*ssa.Const); ok {
+						kv, op = k, mirrorOp[op]
+					}
+					k, _ := kv.(*ssa.Const)
+					if k == nil || k.Value == nil || k.Value.Kind() != constant.Int {
+						continue
+					}
+					n, exact := constant.Uint64Val(k.Value)
+					if !exact {
+						continue
+					}
+					switch op {
+					case token.LEQ, token.GTR:
+						th[fmt.Sprintf("<=%d", n)] = true
+					case token.LSS, token.GEQ:
+						if n > 0 {
+							th[fmt.Sprintf("<=%d", n-1)] = true
 						}
+					case token.EQL, token.NEQ:
+						tg[fmt.Sprintf("%d", n)] = true
 					}
 				}
 			}
 		}
-		var ks []string
-		for k := range set {
-			ks = append(ks, k)
+		join := func(m map[string]bool) string {
+			var ks []string
+			for k := range m {
+				ks = append(ks, k)
+			}
+			sort.Strings(ks)
+			return strings.Join(ks, ",")
 		}
-		sort.Strings(ks)
-		return strings.Join(ks, ",")
+		return join(th), join(tg)
 	}
-	wv, gv, sv := consts("common.(*ZeroCopySink).WriteVarUint"), consts("common.getVarUintSize"), consts("common/serialization.GetVarUintSize")
-	c.Check(wv == gv && gv == sv && wv != "", "codec|varuint-thresholds", "WriteVarUint, getVarUintSize and serialization.GetVarUintSize use the same size thresholds", "-", fmt.Sprintf("writer {%s} vs reader {%s} vs serialization {%s}", wv, gv, sv))
-	nvc := consts("common.(*ZeroCopySource).NextVarUint")
-	c.Check(strings.Contains(nvc, "253") && strings.Contains(nvc, "254") && strings.Contains(nvc, "255"), "codec|varuint-tags", "NextVarUint dispatches on the tags 0xFD/0xFE/0xFF", "-", "tags found: "+nvc)
+	wv, _ := consts("common.(*ZeroCopySink).WriteVarUint")
+	gv, nvTags := consts("common.(*ZeroCopySource).NextVarUint")
+	sv, _ := consts("common/serialization.GetVarUintSize")
+	c.Check(wv == gv && gv == sv && wv != "", "codec|varuint-thresholds", "WriteVarUint, NextVarUint (with its minimal-size computation) and serialization.GetVarUintSize use the same size thresholds", "-", fmt.Sprintf("writer {%s} vs reader {%s} vs serialization {%s}", wv, gv, sv))
+	// the reader dispatches on the tags the writer stores: at least two of 0xFD/0xFE/0xFF are tested (the third may be
+	// the default case) and nothing else is
+	tagOK, nTags := true, 0
+	for _, tg := range strings.Split(nvTags, ",") {
+		switch tg {
+		case "253", "254", "255":
+			nTags++
+		case "":
+		default:
+			tagOK = false
+		}
+	}
+	c.Check(tagOK && nTags >= 2, "codec|varuint-tags", "NextVarUint dispatches on the tags 0xFD/0xFE/0xFF", "-", "tags found: "+nvTags)
 	// (5) byteXReader
 	if bx := mustFunc(c, "common/serialization.byteXReader"); bx != nil {
 		g := &an.Guard{Name: "x < 2MiB", FailValue: an.AFalse, MatchValue: func(v ssa.Value) bool {
@@ -309,32 +404,47 @@ func leqLenOfS(fn *ssa.Function, v ssa.Value, at ssa.Instruction, sF *typesVar, 
 // guardedByOffLtLen: in dominates-only form: some dominating If tests
 // off >= len(s) and in lies on its false side.
 func guardedByOffLtLen(fn *ssa.Function, in ssa.Instruction, sF, offF *typesVar) bool {
-	for d := in.Block(); d != nil; d = d.Idom() {
-		p := d.Idom()
-		if p == nil {
-			return false
+	return ltLenAt(in, nil, sF, offF)
+}
+
+// ltLenAt: at instruction in, "idx < len(s)" is established by a dominating branch edge, whatever the spelling of
+// the comparison (off >= len(s) early return, `if pos := off; pos < len(s) {...}`, mirrored operands). idx nil stands
+// for any load of the offset field; two loads of the offset field are taken to be the same value (the readers do not
+// store to it in between; every store is checked by the offset rule).
+func ltLenAt(in ssa.Instruction, idx ssa.Value, sF, offF *typesVar) bool {
+	sameIdx := func(x ssa.Value) bool {
+		if idx != nil && x == idx {
+			return true
 		}
-		iff, ok := p.Instrs[len(p.Instrs)-1].(*ssa.If)
-		if !ok {
-			continue
-		}
-		cmp, isB := iff.Cond.(*ssa.BinOp)
-		if !isB || cmp.Op != token.GEQ || fieldOfLoad(cmp.X) != offF {
-			continue
-		}
-		y := cmp.Y
+		return fieldOfLoad(x) == offF && (idx == nil || fieldOfLoad(idx) == offF)
+	}
+	isLenS := func(y ssa.Value) bool {
 		if cv, isC := y.(*ssa.Convert); isC {
 			y = cv.X
 		}
 		k, isK := y.(*ssa.Call)
 		if !isK {
+			return false
+		}
+		bi, isBi := k.Call.Value.(*ssa.Builtin)
+		return isBi && bi.Name() == "len" && fieldOfLoad(k.Call.Args[0]) == sF
+	}
+	for d := in.Block(); d != nil; d = d.Idom() {
+		p := d.Idom()
+		if p == nil {
+			return false
+		}
+		if len(p.Instrs) == 0 || len(d.Preds) != 1 || d.Preds[0] != p {
 			continue
 		}
-		if bi, isBi := k.Call.Value.(*ssa.Builtin); !isBi || bi.Name() != "len" || fieldOfLoad(k.Call.Args[0]) != sF {
+		iff, ok := p.Instrs[len(p.Instrs)-1].(*ssa.If)
+		if !ok {
 			continue
 		}
-		if p.Succs[1] == d && len(d.Preds) == 1 {
-			return true
+		if m, whenTrue := relMatch(iff.Cond, token.LSS, sameIdx, isLenS); m {
+			if whenTrue && p.Succs[0] == d || !whenTrue && p.Succs[1] == d {
+				return true
+			}
 		}
 	}
 	return false
